@@ -55,7 +55,10 @@ def _single(text):
     if low.startswith('info:'):
         return None
     if low.startswith('obs:'):
-        v = float(text.split(':', 1)[1])
+        body = text.split(':', 1)[1]
+        if not (_INT.match(body) or _FLT.match(body)):  # a plain decimal numeral, nothing else float() would take
+            raise ValueError(f'not a number: {body!r}')
+        v = float(body)
         return dict(mono=v, avg=v, comp=None, kind='obs')
     if low.startswith('formula:'):
         c = refchem.parse_formula(text.split(':', 1)[1])
